@@ -161,6 +161,10 @@ func (loader *Loader) LoadFromData(data []byte) (*T, error) {
 // elements and returns a *T with all resolved data or an error if unable to load data or resolve refs.
 func (loader *Loader) LoadFromDataWithPath(data []byte, location *url.URL) (*T, error) {
 	loader.resetVisitedPathItemRefs()
+	if location == nil {
+		// no location: as LoadFromData
+		location = new(url.URL)
+	}
 	return loader.loadFromDataWithPathInternal(data, location)
 }
 
